@@ -145,7 +145,8 @@ pub fn gen_feedback(rng: &mut Rng, opts: &GenOpts, input: ShapeCfg, max_loops: u
         return None;
     }
     let mut layers = Vec::new();
-    let loops = if scale() && rng.chance(0.5) { rng.range(6, 12) } else { rng.range(1, max_loops) };
+    // many loops or a wide block, not both (cost = loops x width^2 per sample and pass)
+    let loops = if scale() && input.count() <= 40 && rng.chance(0.5) { rng.range(6, 12) } else { rng.range(1, max_loops) };
     let inskips = rng.chance(0.5);
     // output skips need at least one earlier repetition (the library averages over an
     // empty list otherwise)
@@ -431,6 +432,17 @@ pub fn gen_net(rng: &mut Rng, opts: &GenOpts) -> NetCfg {
         if matches!(net.layers[i], LayerCfg::Dense { .. } | LayerCfg::Conv { .. } | LayerCfg::Deconv { .. }) {
             net.set_activations.push((i, act(rng)));
         }
+    }
+    // ... and of the output layer, across the soft-max boundary as often as not: whatever
+    // the network caches about its output layer when the layer is added is stale afterwards
+    if rng.chance(0.06) {
+        net.built_last_act = Some(if softmax {
+            act(rng)
+        } else if rng.chance(0.5) {
+            Act::Softmax
+        } else {
+            act(rng)
+        });
     }
     net.optimizer = gen_optimizer(rng, opts.stateful_optimizers);
     net.objective = if softmax {
